@@ -78,8 +78,9 @@ package datarecording
 //@   && (forall k int :: k in t.tables ==> ref(t.tables[k].entries) <= allocTop)
 
 // location interning: IDs are 1..n and pairwise different (hence a bijection onto 1..n)
-//@ pred c35LocBij(t) = (forall s int :: s in t.locationInfo ==> 1 <= t.locationInfo[s] && t.locationInfo[s] <= len(t.locationInfo))
-//@   && (forall s1 int, s2 int :: s1 in t.locationInfo && s2 in t.locationInfo && s1 != s2 ==> t.locationInfo[s1] != t.locationInfo[s2])
+//@ pred c35LocBij(t) = len(t.locationInfo) < MaxInt64 ==> ((forall s int :: s in t.locationInfo ==> 1 <= t.locationInfo[s] && t.locationInfo[s] <= len(t.locationInfo))
+//@   && (forall s1 int, s2 int :: s1 in t.locationInfo && s2 in t.locationInfo && s1 != s2 ==> t.locationInfo[s1] != t.locationInfo[s2]))
+// (stated arithmetic bound: fewer than 2^63-1 interned locations; a Go map cannot hold that many)
 
 // Lock invariant of sqliteWriter.mu. Guarded: every table's batch, entryCount, the location map.
 // Stability relation (what every holder does, hence what every other goroutine may rely on across an acquisition):
@@ -92,18 +93,27 @@ package datarecording
 //@   ensures forall s int :: old(s in t.locationInfo) ==> s in t.locationInfo && t.locationInfo[s] == old(t.locationInfo[s])
 
 // ---------------------------------------------------------------------------------------------------------------------
+//@ fn (*sqliteWriter).fieldIgnored
+//@   property C35
+//@   pure
+//@ fn (*sqliteWriter).fieldLocation
+//@   property C35
+//@   pure
+
 //@ fn (*sqliteWriter).getLocationID
 //@   property C35
 //@   requires c35Shape(t) && c35LocBij(t) && c35Disj(t)
-//@   requires len(t.locationInfo) < MaxInt64 && t.entryCount < MaxInt64
 //@   witness loc int = loc
 //@   label C35.loc.result
 //@   ensures loc in t.locationInfo && result == t.locationInfo[loc]
 //@   label C35.loc.known
 //@   ensures old(loc in t.locationInfo) ==> result == old(t.locationInfo[loc]) && len(t.locationInfo) == old(len(t.locationInfo)) && t.entryCount == old(t.entryCount)
 //@     && len(t.tables["location"].entries) == old(len(t.tables["location"].entries)) && ref(t.tables["location"].entries) == old(ref(t.tables["location"].entries))
+//@     && off(t.tables["location"].entries) == old(off(t.tables["location"].entries))
 //@   label C35.loc.new
-//@   ensures !old(loc in t.locationInfo) ==> result == old(len(t.locationInfo)) + 1 && len(t.locationInfo) == old(len(t.locationInfo)) + 1 && t.entryCount == old(t.entryCount) + 1
+//@   ensures !old(loc in t.locationInfo) ==> len(t.locationInfo) == old(len(t.locationInfo)) + 1
+//@     && (old(len(t.locationInfo)) < MaxInt64 ==> result == old(len(t.locationInfo)) + 1)
+//@     && (old(t.entryCount) < MaxInt64 ==> t.entryCount == old(t.entryCount) + 1)
 //@     && len(t.tables["location"].entries) == old(len(t.tables["location"].entries)) + 1
 //@   label C35.loc.new.row
 //@   ensures !old(loc in t.locationInfo) ==> hastype(t.tables["location"].entries[old(len(t.tables["location"].entries))], "location")
@@ -184,3 +194,86 @@ package datarecording
 //@   label C35.insert.inv
 //@   ensures c35Disj(t) && c35LocBij(t)
 //@   assigns key("O|datarecording.table|.entries"), key("E|any|"), t.entryCount, elems(t.locationInfo), c35Cnt, c35Typ, c35Val, c35CurTyp, c35CurVal
+
+// ---------------------------------------------------------------------------------------------------------------------
+// Flushing. No lock is taken here: flushLocationTable is read sequentially.
+//@ func c35LocStmt(t) = t.tables["location"].statement
+//@ fn (*sqliteWriter).flushLocationTable
+//@   property C35
+//@   requires c35Shape(t) && c35Disj(t)
+//@   panics any
+//@   label C35.flushloc.count
+//@   ensures c35Cnt == upd(old(c35Cnt), c35LocStmt(t), old(c35Cnt)[c35LocStmt(t)] + old(len(t.tables["location"].entries)))
+//@   label C35.flushloc.rows
+//@   ensures forall j nat :: j < old(len(t.tables["location"].entries)) ==> c35Typ[c35LocStmt(t)][old(c35Cnt)[c35LocStmt(t)] + j] == typeid(old(t.tables["location"].entries[j])) && c35Val[c35LocStmt(t)][old(c35Cnt)[c35LocStmt(t)] + j] == ifaceval(old(t.tables["location"].entries[j]))
+//@   label C35.flushloc.oldrows
+//@   ensures forall s int, n int :: (s != c35LocStmt(t) || n < old(c35Cnt)[s]) ==> c35Typ[s][n] == old(c35Typ)[s][n] && c35Val[s][n] == old(c35Val)[s][n]
+//@   label C35.flushloc.empty
+//@   ensures len(t.tables["location"].entries) == 0 && c35Disj(t)
+//@   assigns t.tables["location"].entries, c35Cnt, c35Typ, c35Val, c35CurTyp, c35CurVal
+//@   loop 0: invariant -1 <= rangeindex && rangeindex < old(len(t.tables["location"].entries)) && table == t.tables["location"]
+//@   loop 0: invariant len(table.entries) == old(len(table.entries)) && ref(table.entries) == old(ref(table.entries)) && off(table.entries) == old(off(table.entries))
+//@   loop 0: invariant c35Cnt == upd(old(c35Cnt), c35LocStmt(t), old(c35Cnt)[c35LocStmt(t)] + rangeindex + 1)
+//@   loop 0: invariant forall j nat :: j <= rangeindex ==> c35Typ[c35LocStmt(t)][old(c35Cnt)[c35LocStmt(t)] + j] == typeid(old(t.tables["location"].entries[j])) && c35Val[c35LocStmt(t)][old(c35Cnt)[c35LocStmt(t)] + j] == ifaceval(old(t.tables["location"].entries[j]))
+//@   loop 0: invariant forall s int, n int :: (s != c35LocStmt(t) || n < old(c35Cnt)[s]) ==> c35Typ[s][n] == old(c35Typ)[s][n] && c35Val[s][n] == old(c35Val)[s][n]
+//@   loop 1: invariant 0 <= i && (fresh(v) || cap(v) == 0)
+
+//@ fn (*sqliteWriter).mustExecute
+//@   property C35
+//@   requires t != nil && t.DB != nil
+//@   panics any
+//@   assigns nothing
+
+// Flush (sequential statement): every batched entry of every table goes to that table's prepared statement exactly once, in
+// batch order, and every batch is emptied. The statement needs the batches to stay put between Flush's unlocked reads and its
+// unlocked clear; the only thing Flush can rely on across insertEntryForTable's lock acquisitions is the lock's stability
+// relation (batches may GROW). Obligation C35.flush.atomic is that missing guarantee.
+//@ pred c35HdrOld(t, k) = len(t.tables[k].entries) == old(len(t.tables[k].entries)) && ref(t.tables[k].entries) == old(ref(t.tables[k].entries)) && off(t.tables[k].entries) == old(off(t.tables[k].entries))
+//@ func c35St(t, k) = t.tables[k].statement
+//@ fn (*sqliteWriter).Flush
+//@   property C35
+//@   requires c35Shape(t) && c35Disj(t) && c35LocBij(t)
+//@   panics any
+//@   label C35.flush.idle
+//@   ensures old(t.entryCount) == 0 ==> c35Cnt == old(c35Cnt) && c35Typ == old(c35Typ) && c35Val == old(c35Val) && (forall k int :: k in t.tables ==> c35HdrOld(t, k))
+//@   label C35.flush.count
+//@   ensures old(t.entryCount) != 0 ==> (forall k int :: k in t.tables && k != "location" ==> c35Cnt[c35St(t, k)] == old(c35Cnt)[c35St(t, k)] + old(len(t.tables[k].entries)))
+//@   label C35.flush.order
+//@   ensures old(t.entryCount) != 0 ==> (forall k int, j nat :: k in t.tables && k != "location" && j < old(len(t.tables[k].entries)) ==> c35Typ[c35St(t, k)][old(c35Cnt)[c35St(t, k)] + j] == typeid(old(t.tables[k].entries[j])) && c35Val[c35St(t, k)][old(c35Cnt)[c35St(t, k)] + j] == ifaceval(old(t.tables[k].entries[j])))
+//@   label C35.flush.empty
+//@   ensures old(t.entryCount) != 0 ==> (forall k int :: k in t.tables ==> len(t.tables[k].entries) == 0)
+//@   label C35.flush.location
+//@   ensures old(t.entryCount) != 0 ==> c35Cnt[c35LocStmt(t)] >= old(c35Cnt)[c35LocStmt(t)] + old(len(t.tables["location"].entries))
+//@   label C35.flush.oldrows
+//@   ensures forall s int, n int :: n < old(c35Cnt)[s] ==> c35Typ[s][n] == old(c35Typ)[s][n] && c35Val[s][n] == old(c35Val)[s][n]
+//@   label C35.flush.reset
+//@   ensures old(t.entryCount) != 0 ==> t.entryCount == 0
+//@   label C35.flush.inv
+//@   ensures c35Disj(t) && c35LocBij(t)
+//@   assigns key("O|datarecording.table|.entries"), key("E|any|"), t.entryCount, elems(t.locationInfo), c35Cnt, c35Typ, c35Val, c35CurTyp, c35CurVal
+//  ---- loop 0: the tables, in map order
+//@   loop 0: invariant old(t.entryCount) != 0 && c35Disj(t) && c35LocBij(t)
+//@   loop 0: invariant forall k int :: k in t.tables && k != "location" ==> c35Cnt[c35St(t, k)] == old(c35Cnt)[c35St(t, k)] + (visited(k) ? old(len(t.tables[k].entries)) : 0)
+//@   loop 0: invariant forall k int :: k in t.tables && k != "location" ==> (visited(k) ? len(t.tables[k].entries) == 0 : c35HdrOld(t, k))
+//@   loop 0: invariant forall k int, j nat :: k in t.tables && k != "location" && !visited(k) && j < old(len(t.tables[k].entries)) ==> t.tables[k].entries[j] == old(t.tables[k].entries[j])
+//@   loop 0: invariant forall k int, j nat :: k in t.tables && k != "location" && visited(k) && j < old(len(t.tables[k].entries)) ==> c35Typ[c35St(t, k)][old(c35Cnt)[c35St(t, k)] + j] == typeid(old(t.tables[k].entries[j])) && c35Val[c35St(t, k)][old(c35Cnt)[c35St(t, k)] + j] == ifaceval(old(t.tables[k].entries[j]))
+//@   loop 0: invariant forall s int, n int :: n < old(c35Cnt)[s] ==> c35Typ[s][n] == old(c35Typ)[s][n] && c35Val[s][n] == old(c35Val)[s][n]
+//@   loop 0: invariant len(t.tables["location"].entries) >= old(len(t.tables["location"].entries)) && c35Cnt[c35LocStmt(t)] == old(c35Cnt)[c35LocStmt(t)]
+//  ---- loop 1: the batch of the current table
+//@   loop 1: ghost q = true
+//@   loop 1: backedge q = q && insertEntryForTable_quiet
+//@   label C35.flush.atomic
+//@   loop 1: invariant q
+//@   loop 1: invariant old(t.entryCount) != 0 && c35Disj(t) && c35LocBij(t)
+//@   loop 1: invariant tableName in t.tables && tableName != "location" && table == t.tables[tableName] && visited(tableName)
+//@   loop 1: invariant -1 <= rangeindex && rangeindex < old(len(t.tables[tableName].entries))
+//@   loop 1: invariant c35Cnt[table.statement] == old(c35Cnt)[table.statement] + rangeindex + 1
+//@   loop 1: invariant q ==> c35HdrOld(t, tableName)
+//@   loop 1: invariant q ==> (forall j nat :: j < old(len(t.tables[tableName].entries)) ==> t.tables[tableName].entries[j] == old(t.tables[tableName].entries[j]))
+//@   loop 1: invariant forall j nat :: j <= rangeindex ==> c35Typ[table.statement][old(c35Cnt)[table.statement] + j] == typeid(old(t.tables[tableName].entries[j])) && c35Val[table.statement][old(c35Cnt)[table.statement] + j] == ifaceval(old(t.tables[tableName].entries[j]))
+//@   loop 1: invariant forall k int :: k in t.tables && k != "location" && k != tableName ==> c35Cnt[c35St(t, k)] == old(c35Cnt)[c35St(t, k)] + (visited(k) ? old(len(t.tables[k].entries)) : 0)
+//@   loop 1: invariant q ==> (forall k int :: k in t.tables && k != "location" && k != tableName ==> (visited(k) ? len(t.tables[k].entries) == 0 : c35HdrOld(t, k)))
+//@   loop 1: invariant q ==> (forall k int, j nat :: k in t.tables && k != "location" && !visited(k) && j < old(len(t.tables[k].entries)) ==> t.tables[k].entries[j] == old(t.tables[k].entries[j]))
+//@   loop 1: invariant forall k int, j nat :: k in t.tables && k != "location" && k != tableName && visited(k) && j < old(len(t.tables[k].entries)) ==> c35Typ[c35St(t, k)][old(c35Cnt)[c35St(t, k)] + j] == typeid(old(t.tables[k].entries[j])) && c35Val[c35St(t, k)][old(c35Cnt)[c35St(t, k)] + j] == ifaceval(old(t.tables[k].entries[j]))
+//@   loop 1: invariant forall s int, n int :: n < old(c35Cnt)[s] ==> c35Typ[s][n] == old(c35Typ)[s][n] && c35Val[s][n] == old(c35Val)[s][n]
+//@   loop 1: invariant len(t.tables["location"].entries) >= old(len(t.tables["location"].entries)) && c35Cnt[c35LocStmt(t)] == old(c35Cnt)[c35LocStmt(t)]
